@@ -20,7 +20,8 @@ FAMILY = Family(
     extra_structs={'ApproxPos': {'pos': 'size_t', 'lo': 'size_t', 'hi': 'size_t'}, 'PGMType': {'n': 'size_t', 'stamp': 'size_t'},
                    'DynIt': {'level': 'uint8_t', 'idx': 'size_t'}, 'vec_Item': {'data': 'Ptr<Item>', 'size': 'size_t', 'cap': 'size_t'}},
     conv={'Item': 'first'},
-    struct_methods={('PGMType', 'search'): FuncInfo('PGMType_search', 'ApproxPos'), ('DynIt', 'DynIt'): FuncInfo('DynIt_make', 'DynIt')},
+    struct_methods={('PGMType', 'search'): FuncInfo('PGMType_search', 'ApproxPos'), ('DynIt', 'DynIt'): FuncInfo('DynIt_make', 'DynIt'),
+                    ('PGMType', 'PGMType'): FuncInfo('PGMType_build', 'PGMType', lead_base=(0,))},
     typenames={'K', 'V', 'Item', 'Level', 'PGMType', 'iterator', 'RandomIt', 'In1', 'In2', 'OutIterator'},
     templates={'merge'},
 )
@@ -62,6 +63,8 @@ F('Dyn_pairwise_merge', HPP, 'pairwise_merge', 'void Dyn_pairwise_merge(Dyn *sel
   ret='void', params={'new_item': 'Ref<Item>', 'target': 'uint8_t', 'size_hint': 'size_t', 'insertion_point': 'It<Item>'}, params_complete=True,
   bases={'insertion_point': '(*Dyn_level(self, self->min_level)).data'})
 FUNCS['PGMType_search'] = FuncDesc('PGMType_search', HPP, 'search', 'ApproxPos PGMType_search(const PGMType *self, K key)', ret='ApproxPos')
+FUNCS['PGMType_build'] = FuncDesc('PGMType_build', HPP, 'PGMIndex', 'PGMType PGMType_build(const Item *A, size_t first, size_t last)', ret='PGMType')
+FUNCS['pgmv_copy_Item'] = FuncDesc('pgmv_copy_Item', HPP, 'move', 'size_t pgmv_copy_Item(const Item *src, size_t first, size_t last, Item *dst, size_t d)', ret='size_t')
 FUNCS['DynIt_make'] = FuncDesc('DynIt_make', HPP, 'Iterator', 'DynIt DynIt_make(const Dyn *p, uint8_t level_number, size_t it)', ret='DynIt')
 
 PRELUDE = r'''
